@@ -63,10 +63,10 @@ def isFirOutFor (s : Nat) : Rtcp → Bool
   | .fir _ _ es => es.contains s
   | _ => false
 
-/-- incoming FIR: the code additionally wants the media SSRC of the header to be `s`
-(see the remark on RFC 5104 in Props/C19.lean). -/
+/-- incoming FIR: addressed through its FCI entries as well (RFC 5104: the media SSRC of the
+header is unused). -/
 def isFirInFor (s : Nat) : Rtcp → Bool
-  | .fir _ m es => es.contains s && m == s
+  | .fir _ _ es => es.contains s
   | _ => false
 
 /-- incoming SR that names `s` (as sender or in a report block). -/
@@ -171,6 +171,69 @@ def lastN (n : Nat) (l : List Nat) : List Nat := l.drop (l.length - n)
 
 /-- round-trip time per RFC 3550 §6.4.1: `now − DLSR − T(LSR)`. -/
 def rttOf (now : Int) (delay : Nat) (ntp : Nat) : Int := (now - delayNs delay) - Ntp.toTime ntp
+
+/-! ### round-trip time as a function of the history -/
+
+/-- the RTT measurements a list of report blocks (all about the stream, all arriving at `now`)
+yields against the remembered sender-report times `mem` (oldest first): a block with non-zero
+LSR and DLSR whose LSR equals the middle 32 bits of a remembered time — the most recent such
+time — yields `now − DLSR − ToTime(that time)`; other blocks yield nothing. -/
+def hitsAt (now : Int) (mem : List Nat) (rs : List Report) : List Int :=
+  rs.filterMap fun r =>
+    if r.dlsr ≠ 0 ∧ r.lsr ≠ 0 then ((searchOrder mem).find? (midMatches r.lsr)).map (rttOf now r.dlsr) else none
+
+/-- the measurements one event yields for `s`, given the history `pre` before it: the report
+blocks about `s` of an incoming compound packet, judged against the last five sender reports
+sent for `s` in `pre`. -/
+def rttHitsOfEvent (s : Nat) (pre : List Event) : Event → List Int
+  | .rtcpIn now pkts => hitsAt now (lastN 5 (srTimes s pre)) ((pkts.flatMap reportsOfPkt).filter (·.ssrc == s))
+  | _ => []
+
+/-- all RTT measurements of stream `s` over `w`, in order, `pre` being the history before `w`. -/
+def rttHitsFrom (s : Nat) (pre : List Event) : List Event → List Int
+  | [] => []
+  | e :: w => rttHitsOfEvent s pre e ++ rttHitsFrom s (pre ++ [e]) w
+
+def rttHits (s : Nat) (w : List Event) : List Int := rttHitsFrom s [] w
+
+/-- `RoundTripTime`, `TotalRoundTripTime` (int64 wrap-around), `RoundTripTimeMeasurements`. -/
+structure RttFigures where
+  rtt : Int
+  total : Int
+  n : Nat
+  deriving DecidableEq, Repr
+
+def rttFiguresOf (hits : List Int) : RttFigures :=
+  { rtt := hits.getLast?.getD 0, total := hits.foldl (fun a x => wrap64 (a + x)) 0, n := hits.length }
+
+def remoteInboundRtt (st : IStats) : RttFigures := { rtt := st.riRTT, total := st.riTotRTT, n := st.riN }
+
+/-- the same for DLRR: a sub-report about `s` with non-zero LastRR and DLRR yields one measurement
+for *every* remembered receiver-reference time (most recent first) whose middle bits match. -/
+def dlrrHitsAt (s : Nat) (now : Int) (mem : List Nat) (subs : List DlrrSub) : List Int :=
+  subs.flatMap fun x =>
+    if x.lrr ≠ 0 ∧ x.dlrr ≠ 0 ∧ x.ssrc = s then
+      ((searchOrder mem).filter (midMatches x.lrr)).map (rttOf now x.dlrr)
+    else []
+
+/-- the DLRR sub-reports carried by a packet. -/
+def dlrrSubsOfPkt : Rtcp → List DlrrSub
+  | .xr _ blocks => (blocks.flatMap fun b => match b with
+      | .dlrr subs => subs
+      | .rrtr _ => [])
+  | _ => []
+
+def dlrrHitsOfEvent (s : Nat) (pre : List Event) : Event → List Int
+  | .rtcpIn now pkts => dlrrHitsAt s now (lastN 5 (rrtrTimes pre)) (pkts.flatMap dlrrSubsOfPkt)
+  | _ => []
+
+def dlrrHitsFrom (s : Nat) (pre : List Event) : List Event → List Int
+  | [] => []
+  | e :: w => dlrrHitsOfEvent s pre e ++ dlrrHitsFrom s (pre ++ [e]) w
+
+def dlrrHits (s : Nat) (w : List Event) : List Int := dlrrHitsFrom s [] w
+
+def remoteOutboundRtt (st : IStats) : RttFigures := { rtt := st.roRTT, total := st.roTotRTT, n := st.roN }
 
 /-! ### isolation: what concerns stream `s` -/
 
